@@ -150,6 +150,12 @@ func c01Stream1(env *core.Env) {
 		argPool = pool
 	}
 	rng := env.Rng("stream1-func")
+	var ints []gen.PV
+	for _, a := range pool {
+		if a.Class == "int" {
+			ints = append(ints, a)
+		}
+	}
 	for _, name := range names {
 		for _, recv := range pool {
 			// arity 0
@@ -164,6 +170,24 @@ func c01Stream1(env *core.Env) {
 				if env.Mine(n) {
 					c01Expr(env, "stream1", "func:"+name+"/1:"+recv.Class+":"+a.Class, fmt.Sprintf("(%s).%s(%s)", recv.Src, name, a.Src), true)
 					env.Cover("stream1/func")
+				}
+			}
+			// string receivers x every integer (positions and lengths around the character / byte counts)
+			if env.Quick() && recv.Class == "str" {
+				for _, a := range pool {
+					if a.Class != "int" {
+						continue
+					}
+					n++
+					if env.Mine(n) {
+						c01Expr(env, "stream1", "func:"+name+"/1:"+recv.Class+":"+a.Class, fmt.Sprintf("(%s).%s(%s)", recv.Src, name, a.Src), true)
+					}
+					n++
+					if env.Mine(n) {
+						// (second argument chosen without touching the shared stream: every worker walks the same list)
+						b := ints[int(core.Hash64(recv.Src+a.Src+name)%uint64(len(ints)))]
+						c01Expr(env, "stream1", "func:"+name+"/2:"+recv.Class+":int,int", fmt.Sprintf("(%s).%s(%s, %s)", recv.Src, name, a.Src, b.Src), true)
+					}
 				}
 			}
 			// arity 2..4: sampled tuples (deterministic stream, drawn for all shards alike)
